@@ -34,7 +34,9 @@ func (c *Ctx) tokAnchors() *tokAnchors {
 		}
 		return f
 	}
-	ta.next, ta.peek, ta.consume, ta.readSkip, ta.read = m("next"), m("peek"), m("consume"), m("readSkip"), m("read")
+	ta.next, ta.peek, ta.readSkip, ta.read = m("next"), m("peek"), m("readSkip"), m("read")
+	// consume may be merged into next
+	ta.consume = LookupMethod(root, "Tokenizer", "consume")
 	ta.readStr, ta.parseOperator, ta.unread = m("readStr"), m("parseOperator"), m("unread")
 	ta.run = c.FuncDecl(root, "Tokenizer", "run")
 	if ta.run == nil {
@@ -264,25 +266,39 @@ func ruleR152(c *Ctx) {
 	// (d) line counting in the block comment loop and in run
 	key = "parser2.Tokenizer.peek#block-comment-line-count"
 	counted := false
+	// the comment block and the Tokenizer methods it delegates to (skipBlockComment)
+	scan := []ast.Node{block}
 	ast.Inspect(block, func(x ast.Node) bool {
-		ifs, ok := x.(*ast.IfStmt)
-		if !ok {
-			return true
-		}
-		be, ok := ast.Unparen(ifs.Cond).(*ast.BinaryExpr)
-		if !ok || be.Op != token.EQL {
-			return true
-		}
-		if bl, ok := ast.Unparen(be.Y).(*ast.BasicLit); ok && bl.Value == `'\n'` {
-			if containsNode(ifs.Body, func(y ast.Node) bool {
-				inc, ok := y.(*ast.IncDecStmt)
-				return ok && inc.Tok == token.INC && mentionsName(inc.X, "line")
-			}) {
-				counted = true
+		if call, ok := x.(*ast.CallExpr); ok {
+			if cal := Callee(info, call); cal != nil && cal.Pkg() == root.Types {
+				if d := findFuncDecl(root, cal); d != nil && d.Body != nil && d != peek && d.Recv != nil && recvTypeName(d.Recv.List[0].Type) == "Tokenizer" {
+					scan = append(scan, d.Body)
+				}
 			}
 		}
 		return true
 	})
+	for _, sc := range scan {
+		ast.Inspect(sc, func(x ast.Node) bool {
+			ifs, ok := x.(*ast.IfStmt)
+			if !ok {
+				return true
+			}
+			be, ok := ast.Unparen(ifs.Cond).(*ast.BinaryExpr)
+			if !ok || be.Op != token.EQL {
+				return true
+			}
+			if bl, ok := ast.Unparen(be.Y).(*ast.BasicLit); ok && bl.Value == `'\n'` {
+				if containsNode(ifs.Body, func(y ast.Node) bool {
+					inc, ok := y.(*ast.IncDecStmt)
+					return ok && inc.Tok == token.INC && mentionsName(inc.X, "line")
+				}) {
+					counted = true
+				}
+			}
+			return true
+		})
+	}
 	c.Check(counted, key, block.Pos(), "line breaks inside block comments increment the line counter", "line breaks inside a block comment are not counted: tokens and errors behind the comment are reported on a too small line")
 	key = "parser2.Tokenizer.run#newline-line-count"
 	countedRun := false
@@ -408,6 +424,123 @@ func ruleR153(c *Ctx) {
 // ---------------------------------------------------------------------------
 // R15.4 alias tables
 
+// aliasTable extracts the typographic alias table of the tokenizer and the
+// fields that hold aliased runes. Two forms: a switch over a field whose cases
+// assign constants to that field, or an assignment field = f(field) with f a
+// function of the package that maps runes by a switch returning constants.
+func (c *Ctx) aliasTable(root *packages.Package) (map[rune]rune, map[types.Object]bool) {
+	info := root.TypesInfo
+	table := map[rune]rune{}
+	fields := map[types.Object]bool{}
+	caseRunes := func(cc *ast.CaseClause) []rune {
+		var rs []rune
+		for _, e := range cc.List {
+			if tv := info.Types[e]; tv.Value != nil {
+				if k, ok := constant.Int64Val(constant.ToInt(tv.Value)); ok && k >= 128 {
+					rs = append(rs, rune(k))
+				}
+			}
+		}
+		return rs
+	}
+	for _, f := range root.Syntax {
+		for _, d := range f.Decls {
+			fd, ok := d.(*ast.FuncDecl)
+			if !ok || fd.Body == nil || fd.Recv == nil || recvTypeName(fd.Recv.List[0].Type) != "Tokenizer" {
+				continue
+			}
+			ast.Inspect(fd.Body, func(x ast.Node) bool {
+				switch t := x.(type) {
+				case *ast.SwitchStmt:
+					if t.Tag == nil {
+						return true
+					}
+					tagSel, ok := ast.Unparen(t.Tag).(*ast.SelectorExpr)
+					if !ok {
+						return true
+					}
+					tsel, ok := info.Selections[tagSel]
+					if !ok || tsel.Kind() != types.FieldVal {
+						return true
+					}
+					for _, cl := range t.Body.List {
+						cc := cl.(*ast.CaseClause)
+						for _, st := range cc.Body {
+							if as, ok := st.(*ast.AssignStmt); ok && len(as.Lhs) == 1 && len(as.Rhs) == 1 {
+								if l, ok := ast.Unparen(as.Lhs[0]).(*ast.SelectorExpr); ok {
+									if ls, ok := info.Selections[l]; ok && ls.Obj() == tsel.Obj() {
+										if tv := info.Types[as.Rhs[0]]; tv.Value != nil {
+											if v, ok := constant.Int64Val(constant.ToInt(tv.Value)); ok {
+												for _, r := range caseRunes(cc) {
+													table[r] = rune(v)
+													fields[tsel.Obj()] = true
+												}
+											}
+										}
+									}
+								}
+							}
+						}
+					}
+				case *ast.AssignStmt:
+					// t.last = typographicAlias(t.last)
+					if len(t.Lhs) != 1 || len(t.Rhs) != 1 {
+						return true
+					}
+					l, ok := ast.Unparen(t.Lhs[0]).(*ast.SelectorExpr)
+					if !ok {
+						return true
+					}
+					ls, ok := info.Selections[l]
+					if !ok || ls.Kind() != types.FieldVal {
+						return true
+					}
+					call, ok := ast.Unparen(t.Rhs[0]).(*ast.CallExpr)
+					if !ok || len(call.Args) != 1 {
+						return true
+					}
+					cal := Callee(info, call)
+					if cal == nil || cal.Pkg() != root.Types {
+						return true
+					}
+					md := findFuncDecl(root, cal)
+					if md == nil || md.Body == nil || md.Type.Params.NumFields() != 1 || len(md.Type.Params.List[0].Names) != 1 {
+						return true
+					}
+					param := info.Defs[md.Type.Params.List[0].Names[0]]
+					ast.Inspect(md.Body, func(y ast.Node) bool {
+						sw, ok := y.(*ast.SwitchStmt)
+						if !ok || sw.Tag == nil {
+							return true
+						}
+						if id, ok := ast.Unparen(sw.Tag).(*ast.Ident); !ok || info.ObjectOf(id) != param {
+							return true
+						}
+						for _, cl := range sw.Body.List {
+							cc := cl.(*ast.CaseClause)
+							for _, st := range cc.Body {
+								if r, ok := st.(*ast.ReturnStmt); ok && len(r.Results) == 1 {
+									if tv := info.Types[r.Results[0]]; tv.Value != nil {
+										if v, ok := constant.Int64Val(constant.ToInt(tv.Value)); ok {
+											for _, rr := range caseRunes(cc) {
+												table[rr] = rune(v)
+												fields[ls.Obj()] = true
+											}
+										}
+									}
+								}
+							}
+						}
+						return true
+					})
+				}
+				return true
+			})
+		}
+	}
+	return table, fields
+}
+
 func ruleR154(c *Ctx) {
 	ta := c.tokAnchors()
 	root := c.Pkg("")
@@ -420,37 +553,7 @@ func ruleR154(c *Ctx) {
 	// (a) typographic aliases in peek
 	key := "parser2.Tokenizer.peek#typographic-aliases"
 	want := map[rune]rune{'•': '*', '×': '*', '÷': '/', '–': '-', 'ˆ': '^'}
-	got := map[rune]rune{}
-	ast.Inspect(peek.Body, func(x ast.Node) bool {
-		sw, ok := x.(*ast.SwitchStmt)
-		if !ok {
-			return true
-		}
-		for _, cl := range sw.Body.List {
-			cc := cl.(*ast.CaseClause)
-			for _, e := range cc.List {
-				tv := info.Types[e]
-				if tv.Value == nil {
-					continue
-				}
-				k, ok := constant.Int64Val(tv.Value)
-				if !ok || k < 128 {
-					continue
-				}
-				// the clause assigns a constant to t.last
-				for _, s := range cc.Body {
-					if as, ok := s.(*ast.AssignStmt); ok && len(as.Rhs) == 1 {
-						if tv2 := info.Types[as.Rhs[0]]; tv2.Value != nil {
-							if v, ok := constant.Int64Val(tv2.Value); ok {
-								got[rune(k)] = rune(v)
-							}
-						}
-					}
-				}
-			}
-		}
-		return true
-	})
+	got, _ := c.aliasTable(root)
 	var problems []string
 	for k, v := range want {
 		if g, ok := got[k]; !ok {
@@ -731,41 +834,13 @@ func ruleR157(c *Ctx) {
 	}
 	info := ta.info
 	// 1. aliased fields
-	aliased := map[types.Object]bool{}
+	_, aliased := c.aliasTable(root)
 	var methods []*ast.FuncDecl
 	for _, f := range root.Syntax {
 		for _, d := range f.Decls {
-			fd, ok := d.(*ast.FuncDecl)
-			if !ok || fd.Body == nil || fd.Recv == nil || recvTypeName(fd.Recv.List[0].Type) != "Tokenizer" {
-				continue
+			if fd, ok := d.(*ast.FuncDecl); ok && fd.Body != nil && fd.Recv != nil && recvTypeName(fd.Recv.List[0].Type) == "Tokenizer" {
+				methods = append(methods, fd)
 			}
-			methods = append(methods, fd)
-			ast.Inspect(fd.Body, func(x ast.Node) bool {
-				sw, ok := x.(*ast.SwitchStmt)
-				if !ok || sw.Tag == nil {
-					return true
-				}
-				tagSel, ok := ast.Unparen(sw.Tag).(*ast.SelectorExpr)
-				if !ok {
-					return true
-				}
-				tsel, ok := info.Selections[tagSel]
-				if !ok || tsel.Kind() != types.FieldVal {
-					return true
-				}
-				for _, cl := range sw.Body.List {
-					for _, s := range cl.(*ast.CaseClause).Body {
-						if as, ok := s.(*ast.AssignStmt); ok && len(as.Lhs) == 1 && len(as.Rhs) == 1 {
-							if l, ok := ast.Unparen(as.Lhs[0]).(*ast.SelectorExpr); ok {
-								if ls, ok := info.Selections[l]; ok && ls.Obj() == tsel.Obj() && info.Types[as.Rhs[0]].Value != nil {
-									aliased[tsel.Obj()] = true
-								}
-							}
-						}
-					}
-				}
-				return true
-			})
 		}
 	}
 	// 2. methods that deliver aliased runes
